@@ -78,7 +78,10 @@ func selectSlotRule(r *Run, R string) {
 		v, _ := constantInt64(c)
 		dirs[c.Name()] = v
 	}
-	isCaseT := func(t types.Type) bool { return t != nil && typeStr(t) == "reflect.SelectCase" }
+	isCaseT := func(t types.Type) bool {
+		// a slot, or a pointer to it (cas := &vm.cases[i])
+		return t != nil && (typeStr(t) == "reflect.SelectCase" || typeStr(t) == "*reflect.SelectCase")
+	}
 	found := 0
 	for _, h := range x.handlers() {
 		// the handler that defines a local of type reflect.SelectDir and stores into a SelectCase slot
